@@ -230,6 +230,8 @@ def to_model(data_file: typing.IO, _config = None, progress_callback=lambda _: N
         Fraction(int(m.group('end_ms')), 1000)
         )
 
+      subtitle_text = ""
+
       state = _State.TEXT
 
       continue
